@@ -145,6 +145,23 @@ func Mk(op, k string, args ...*Term) *Term {
 		if args[0].Op == "add" {
 			return Mk("plus", "", Mk("unixnano", "", args[0].Args[0]), args[0].Args[1])
 		}
+		// unixnano(unix(0, x)) == x
+		if args[0].Op == "unix" && len(args[0].Args) == 2 && args[0].Args[0].IsZero() {
+			return args[0].Args[1]
+		}
+	case "minus":
+		// an instant minus the clock reading is the time remaining to it:  x - now.UnixNano()  ==  until(unix(0, x))
+		if len(args) == 2 && args[1].Op == "unixnano" && len(args[1].Args) == 1 && args[1].Args[0].Op == "now" {
+			if args[0].Op == "unixnano" {
+				return Mk("until", "", args[0].Args[0])
+			}
+			return Mk("until", "", Mk("unix", "", Leaf("zero", ""), args[0]))
+		}
+	case "sub":
+		// t.Sub(now) == until(t)
+		if len(args) == 2 && args[1].Op == "now" {
+			return Mk("until", "", args[0])
+		}
 	case "cmp":
 		a, b := args[0], args[1]
 		switch k {
